@@ -30,18 +30,19 @@ Record gs := {
   g_res_min : Z;          (* minimum over prefixes of that sum *)
   g_panic : bool;
   g_leak : bool;          (* a new attempt was started while the previous attempt's upstream stream was still open *)
-  g_fin_bad : bool;       (* an attempt was sent request headers on which the route actions had not run exactly once *)
+  g_fin_bad : bool;
+  g_mixed : bool;         (* the client was sent a body that does not belong to the response whose headers it got *)       (* an attempt was sent request headers on which the route actions had not run exactly once *)
   g_reply_kind : option (rkind * Z)  (* kind and status of the reply header *)
 }.
 
 #[export] Instance eta_gs : Settable _ := settable! Build_gs
   <g_hdr; g_started; g_ended; g_bad; g_clean; g_log; g_destroy; g_new; g_choose; g_new_unchosen; g_fresh; g_new_after_start;
-   g_denied; g_new_after_deny; g_term; g_gauge; g_res; g_res_min; g_panic; g_leak; g_fin_bad; g_reply_kind>.
+   g_denied; g_new_after_deny; g_term; g_gauge; g_res; g_res_min; g_panic; g_leak; g_fin_bad; g_mixed; g_reply_kind>.
 
 Definition gs0 : gs :=
   {| g_hdr := 0; g_started := false; g_ended := false; g_bad := false; g_clean := 0; g_log := 0; g_destroy := 0; g_new := 0;
      g_choose := 0; g_new_unchosen := false; g_fresh := false; g_new_after_start := false; g_denied := false;
-     g_new_after_deny := false; g_term := false; g_gauge := 0; g_res := 0; g_res_min := 0; g_panic := false; g_leak := false; g_fin_bad := false; g_reply_kind := None |}.
+     g_new_after_deny := false; g_term := false; g_gauge := 0; g_res := 0; g_res_min := 0; g_panic := false; g_leak := false; g_fin_bad := false; g_mixed := false; g_reply_kind := None |}.
 
 Definition is_deny (v : verdict) : bool :=
   match v with VTerm | VHijack | VHijackCont | VDirect => true | _ => false end.
@@ -51,8 +52,9 @@ Definition gs_out (g : gs) (o : out) : gs :=
   | ODownHdr e k c =>
     g <| g_hdr := sat_succ 2 (g_hdr g) |> <| g_bad := g_bad g || g_started g || g_ended g |> <| g_started := true |>
       <| g_ended := g_ended g || e |> <| g_reply_kind := match g_reply_kind g with None => Some (k, c) | x => x end |>
-  | ODownData e =>
+  | ODownData e owner =>
     g <| g_bad := g_bad g || negb (g_started g) || g_ended g |> <| g_ended := g_ended g || e |>
+      <| g_mixed := g_mixed g || match g_reply_kind g with Some (k, _) => negb (rkind_eqb k owner) | None => true end |>
   | ODownTrl => g <| g_bad := g_bad g || negb (g_started g) || g_ended g |> <| g_ended := true |>
   | ODownReset => g
   | OChoose => g <| g_choose := S (g_choose g) |> <| g_fresh := true |>
